@@ -442,8 +442,11 @@ public:
   StringRef lookupNamedBuildParameter(Command* decl, const Token& startTok,
                                       StringRef name,
                                       SmallVectorImpl<char>& storage) {
+    // Like Ninja, quote $in and $out everywhere except in the two parameters
+    // that name a file (description and rspfile_content are quoted).
     LookupContext context{*this, decl, startTok,
-                          /*shellEscapeInAndOut*/ name == "command"};
+                          /*shellEscapeInAndOut*/
+                          name != "depfile" && name != "rspfile"};
     llvm::raw_svector_ostream os(storage);
     lookupBuildParameter(&context, name, os);
     return os.str();
